@@ -407,8 +407,9 @@ def search(ctx):
                         ctx.fail("custkey-mismatch-accepted", {"key": k, "payload": pz, "ck": ck, "pos": pos, "ct": wz[1]},
                                  "frame with a blank slot accepted under customer key %s: %s" % (ck.hex(), repr(u3)[:160]))
     # security code variant
-    for _ in range(ctx.budget(40, 500)):
-        code = bytes(r.randrange(256) for _ in range(8))
+    for i in range(ctx.budget(60, 700)):
+        # the key is SHA-256 of the WHOLE security code, whatever its length (8 bytes is only the usual size)
+        code = bytes(r.randrange(256) for _ in range([8, 8, 8, 9, 16, 33, 7, 1, 0][i % 9]))
         p = bytes(r.randrange(256) for _ in range(17))
         ctx.case(("search-csc", code, p))
         e = ConfigSecurityCodeEncryptor(code)
@@ -447,6 +448,14 @@ def replay(ctx, data):
                 rc |= bool(why) or u != want
             else:
                 rc |= 1
+        elif "code" in d:
+            from bec2format.bec2file import ConfigSecurityCodeEncryptor
+            code, p = hx(d["code"]), hx(d["payload"])
+            w = run_impl(ConfigSecurityCodeEncryptor(code).encrypt, p)
+            key = hashlib.sha256(code).digest()[:16]
+            why = spec_frame_ok(indep_cbc_decrypt(key, w[1]), p) if w[0] == "ok" else w[1]
+            print(" security code %s (%d bytes): frame under SHA-256(code)[:16] -> %s" % (code.hex(), len(code), why or "as specified"))
+            rc |= bool(why)
         elif "ct" in d and "key" in d:
             k, ct = hx(d["key"]), hx(d["ct"])
             fr = indep_cbc_decrypt(k, ct)
